@@ -25,14 +25,15 @@ INFO = dict(
          'pool max_watermark=1 via the public builder ReplaceRole() in the serial scenario, to force connection reuse'],
   assumptions=['A1-A5'],
 )
-EXPECT_COVERS = ['serial-stale-reply-after-timeout', 'serial-next-call-served', 'mux-out-of-order', 'mux-timeout-then-late-reply']
+EXPECT_COVERS = ['mux-timeout-during-blocked-write', 'serial-stale-reply-after-timeout', 'serial-next-call-served', 'mux-out-of-order', 'mux-timeout-then-late-reply']
 
 
 def jobs(tier):
   n = 2 if tier == 'quick' else 3
   return [dict(name='T-serial-reuse-n%d' % n, sc='serial', n=n, cost=2000, shards=16, shard_depth=4),
           dict(name='M-concurrent-n%d' % n, sc='mux', n=n, cost=2000, shards=8 if n == 2 else 32, shard_depth=3 if n == 2 else 5),
-          dict(name='M-timeout-reuse', sc='muxreuse', cost=500, shards=4, shard_depth=2)]
+          dict(name='M-timeout-reuse', sc='muxreuse', cost=500, shards=4, shard_depth=2),
+          dict(name='M-blocked-write-reuse', sc='muxblocked', cost=500, shards=4, shard_depth=2)]
 
 
 def judge_values(ars, script, issued):
@@ -97,6 +98,33 @@ def make_body(job):
       if len(done) >= 2 and bool(done[0] > done[1]): cover('mux-out-of-order')
       tags = [tag for (t, p, m, a, tag) in script.requests]
       check('mux.tags-distinct-among-concurrent', len(set(tags[:n])) == len(tags[:n]))
+      check('no-greenlet-error', not vtime.ERRORS)
+      c.DispatcherClose()
+    elif sc == 'muxblocked':
+      # the first call's frame is stuck in a blocked write (back-pressure) when its timeout strikes; the server
+      # still answers it late; a second call goes out on the same connection in between
+      T = fresh_real('T', 0, 3, lo_strict=True)
+      W = fresh_real('write_blocks_for', 0, 6)
+      dA = fresh_real('late_reply_after', 0, 6)
+      dB = fresh_real('second_reply_after', 0, 6)
+      script = netm.Script(plan=lambda i, p: ('reply', dA) if p.script.requests[i][3] == ['A'] else ('reply', dB))
+      e.net.endpoint('a', 1, peer=lambda s: netm.MuxPeer(s, script), connect_delay=0.1)
+      c = stacks.mux_client('tcp://a:1', 20)
+      conn = e.net.conns[0]
+      orig = conn.sendall
+      def slow_sendall(data):
+        if b'A' in bytes(data)[-3:]: gevent.sleep(W)
+        return orig(data)
+      conn.sendall = slow_sendall
+      a = c._dispatcher.DispatchMethodCall('hi', ('A',), {}, timeout=T)
+      hdecide(T < W)
+      g = fresh_real('second_call_at', 0, 12)
+      gevent.sleep(g)
+      b_ = c.hi_async('B')
+      gevent.sleep(25)
+      judge_values([('A', a), ('B', b_)], script, ['A', 'B'])
+      evA = stacks.events(a)
+      if evA and isinstance(evA[0][2], ScalesTimeout) and bool(T < W): cover('mux-timeout-during-blocked-write')
       check('no-greenlet-error', not vtime.ERRORS)
       c.DispatcherClose()
     elif sc == 'muxreuse':
